@@ -230,6 +230,7 @@ class Engine:
         prev = ENGINE
         ENGINE = self
         paths = []
+        self.paths_so_far = paths  # kept for diagnosis when a bound stops the exploration
         self.t0 = _time.time()
         try:
             while True:
